@@ -214,8 +214,14 @@ def route_mix(rng, tags, rounds, viol, distinct):
             if rng.random() < 0.4:
                 cur = rng.choice(rps)
             assign.append(cur)
+        # every other round a small size limit: bundles are then flushed because they are full, and a path change may follow a flush directly
+        limit = 500 if r % 2 == 0 else 120
+        if r % 4 == 1:
+            # crafted: single-element reads (22 bytes estimated each), two fit under 120; the path changes exactly after each size flush
+            texts = [rng.choice(['A[0]', 'A[1]', 'B[0]', 'S[0]']) for _ in range(7)]
+            assign = [rps[(i // 3 + r // 4) % 3] for i in range(7)]
         ev += 1
-        distinct.add(('mix', tuple(texts), repr(assign)))
+        distinct.add(('mix', tuple(texts), repr(assign), limit))
         calls = []
         got = []
         with netsim.Server(tags) as srv:
@@ -240,7 +246,7 @@ def route_mix(rng, tags, rounds, viol, distinct):
                         if rp is not None:
                             o['route_path'] = rp
                         ops.append(o)
-                    for idx, dsc, op, rpy, sts, val in conn.pipeline(operations=ops, depth=2, multiple=500, timeout=3.0):
+                    for idx, dsc, op, rpy, sts, val in conn.pipeline(operations=ops, depth=2, multiple=limit, timeout=3.0):
                         got.append((idx, op.get('route_path'), sts))
                     got = [(i, rp, 0) for i, rp in issued] if len(issued) == len(texts) else got + [('ended', 'issue count %d' % len(issued), '')]
             except Exception as e:
@@ -254,7 +260,7 @@ def route_mix(rng, tags, rounds, viol, distinct):
                     bad = 'operation with route_path %r was sent in bundle %d with route_path %r' % (rp, idx, calls[idx][0] if idx < len(calls) else None)
                     break
         if bad:
-            viol('bundling route paths %r' % (assign,), bad, 'every bundle carries exactly the route/send path of each of its operations')
+            viol('bundling route paths %r multiple=%d' % (assign, limit), bad, 'every bundle carries exactly the route/send path of each of its operations')
     return ev
 
 
@@ -346,7 +352,7 @@ def bounded(tier, seed):
                 viol('ops=%r depth/multiple/fragment=%r' % (ops, key), '%d results: %r' % (len(got[0]), got[0]), 'exactly one result per operation (%d)' % len(ops))
             elif got != ref:
                 viol('ops=%r depth/multiple/fragment=%r' % (ops, key), repr(got)[:300], 'same statuses, values and final tags as the synchronous run: %r' % (ref,))
-    ev += route_mix(rng, tags, 3 if tier == 'quick' else 20, viol, distinct)
+    ev += route_mix(rng, tags, 4 if tier == 'quick' else 20, viol, distinct)
     return dict(evaluations=ev, distinct_nontrivial=len(distinct),
                 rule='(a) operation strings generated from a token grammar (tag / dotted tag / @c/i/a with hex, [i], [a-b], *n, +offset aligned and misaligned, (TYPE) casts, value lists '
                      'of matching / short / long length) x fragment on/off: parse_operations == reference parser (incl. which strings must be refused); (b) format_path -> '
